@@ -105,6 +105,8 @@ S4 == << StructN(<<MA(ByteN), MB(BytesN(ThisA))>>),
          UnionN([x |-> "const", v |-> VNone], <<BytesN(CInt(2)), MA(ByteN), PaddingN(1), MB(Al("Int16ub"))>>),
          UnionN(CInt(2), <<ConstN(<<1>>), MA(Al("Int16ub")), MB(ByteN)>>),
          UnionN(CInt(0), <<MA(PrefixedN(ByteN, [k |-> "Tell"])), MB(ByteN)>>),
+         UnionN(CStrV(<<98>>), <<ByteN, MB(Al("Int16ub")), MC(ByteN)>>),
+         UnionN(CStrV(<<99>>), <<MA(ByteN), ConstN(<<1>>), PaddingN(2), MC(Al("Int24ub"))>>),
          UnionN(CStrV(<<97>>), <<MA(PrefixedN(ByteN, PassN)), MB(ByteN)>>),
          UnionN(CInt(1), <<MA(ByteN), MB(PaddedN(CInt(2), PrefixedN(ByteN, PassN))), MC(Al("Int16ub"))>>),
          PrefixedN(ByteN, StructN(<<MA([k |-> "Tell"]), MB(GreedyBytesN), MC([k |-> "Tell"])>>)),
